@@ -5,13 +5,14 @@ import (
 	"context"
 	"fmt"
 	"sort"
+	"strings"
 	"testing"
 	"time"
 
-	math "github.com/IBM/mathlib"
 	"github.com/IBM/TSS/mpc/bls"
 	"github.com/IBM/TSS/mpc/ps"
 	tss "github.com/IBM/TSS/types"
+	math "github.com/IBM/mathlib"
 	"pgregory.net/rapid"
 
 	"verif/core/backends"
@@ -163,11 +164,11 @@ func genC13(t *rapid.T) c13Case {
 }
 
 type c13Run struct {
-	OK      bool
-	Errs    []string
-	Handed  []string // canonical (renamed) multiset of hand-offs
-	Shares  [][]byte
-	Panic   string
+	OK     bool
+	Errs   []string
+	Handed []string // canonical (renamed) multiset of hand-offs
+	Shares [][]byte
+	Panic  string
 }
 
 // c13Execute runs the session with the given identifiers; rename maps ids to
@@ -213,7 +214,9 @@ func c13Execute(c c13Case, ids []int) (*c13Run, *vh.Failure) {
 			kgf, sf = c11Factories(c.Backend, all, 2, tape)
 		}
 		cl := stack.New(net, stack.Config{Membership: membership, Silent: c.Silent, Threshold: len(all) - 1, KGF: kgf, SF: sf,
-			Pick: func(uint16) func([]byte, int) []uint16 { return func([]byte, int) []uint16 { return append([]uint16(nil), all...) } }})
+			Pick: func(uint16) func([]byte, int) []uint16 {
+				return func([]byte, int) []uint16 { return append([]uint16(nil), all...) }
+			}})
 		defer cl.StopAll()
 		ctx, cancel := context.WithTimeout(context.Background(), 60*time.Second)
 		defer cancel()
@@ -288,6 +291,9 @@ func c13Execute(c c13Case, ids []int) (*c13Run, *vh.Failure) {
 		if len(p) >= 5 {
 			sender := uint16(p[2])<<8 | uint16(p[3])
 			body := string(p[5:])
+			if i := strings.Index(body, ";n"); i >= 0 { // the emitting node id is harness bookkeeping, not compared
+				body = body[:i]
+			}
 			if len(body) > 2 && body[:2] == "to" {
 				var q int
 				fmt.Sscanf(body[2:], "%d", &q)
